@@ -193,7 +193,7 @@ Proof.
   - apply (read_subrepo_slashes (s "pkg") (s "sub") (s "pkg") (s "foo")); try reflexivity; try discriminate.
     + vm_compute. intuition discriminate.
     + intros a b E. destruct a as [|? [|? [|? [|? a]]]]; cbn in E; try discriminate;
-        injection E; intros; subst; try discriminate. destruct a; discriminate.
+        injection E; intros; subst; try discriminate.
 Qed.
 
 (* Non-vacuity 4 (the open finding): `--exclude ///s//p:x` also rejects the host target //p:x, which the
